@@ -592,7 +592,7 @@ PROPS["C10"]["rule"] += (" Rule ids are also overwritten by scheduled rules; wit
                          "evaluates (what else such an event does is not specified).")
 PROPS["C15"]["rule"] += " In the sys.System part the client uses either a fresh core.Context per request or one context for all its requests to all locations."
 PROPS["C11"]["rule"] += (" Every engine starts from the process's first-use state (timer histories cleared); some rules take their tag "
-                         "from a library given as explicit code while their action text is the same in every location.")
+                         "from a named library of the location control while their action text is the same in every location.")
 PROPS["C04"]["rule"] += (" Another action kind writes to its view of the event (a counter) before returning what it sees: every "
                          "execution must count exactly one, and the caller's event must be unchanged afterwards.")
 PROPS["C20"]["rule"] += (" Capacity part: half of the cases serve the location through a sys.System whose default location control, or "
